@@ -110,6 +110,9 @@ fn faults(labels: &[String], rng: &mut Rng) -> Vec<(&'static str, Vec<Node>)> {
     let raw = |s: &str| vec![Node::Raw(s.to_string())];
     let mut v: Vec<(&'static str, Vec<Node>)> = vec![
         ("syntax", raw(*rng.pick(&["bla bla bla", "ldi r16,", ".db 1,,2", "?!", "mov r1 r2", "ldi r16, (1+", ".equ = 5"]))),
+        // characters the language gives no meaning to, alone on a line or in front of a comment (blank and tab are
+        // the only white space of the language)
+        ("stray-character-line", raw(*rng.pick(&["\u{a0}; note", "\u{a0}", "\u{c}", "\u{b}// x", "\u{3000}", "\u{2028}; c", "\u{85}", "\u{2003}\t; indented", " \u{a0} ", "\u{200b}", "\u{c}\tnop"]))),
         ("unknown-mnemonic", raw(*rng.pick(&["\tfrobnicate r1, 2", "\tfrobnicate", "\tldx r1, 5"]))),
         ("register-for-expression", raw(*rng.pick(&["\tldi r16, r17", "\tout r1, r2", "\trjmp r5"]))),
         ("expression-for-register", raw(*rng.pick(&["\tmov r1, 5", "\tinc 7", "\tldi 16, 1", "\tpush 1+2"]))),
